@@ -110,3 +110,15 @@ MUTANTS += [
      "        sym_def = SymbolDefinition(symbol_name + '_',\n",
      'EmbryoParser.parse : ensures[the instruction defines NAME as a container of the parsed value'),
 ]
+
+BENIGN += [
+    # (the benign edit C08-b4 of the coordinator's list: one dict .get instead of `not in` + indexing)
+    ('benign-l8-c08-def-type-lookup-by-get', 'C08', _DEF_PARSER,
+     [("    if type_str not in type_setup.TYPE_SETUPS:\n"
+       "        err_msg = 'Invalid type: {}\\nExpecting one of {}'.format(type_str, _TYPES_LIST_IN_ERR_MSG)\n"
+       "        raise SingleInstructionInvalidArgumentException(err_msg)\n\n"
+       "    ts = type_setup.TYPE_SETUPS[type_str]\n",
+       "    ts = type_setup.TYPE_SETUPS.get(type_str)\n\n"
+       "    if ts is None:\n"
+       "        raise SingleInstructionInvalidArgumentException('Unknown symbol type: ' + type_str)\n")]),
+]
